@@ -589,8 +589,8 @@ def negindex_cases():
 
 class C10(Check):
     pid = "C10"
-    quick_cases = 700
-    thorough_cases = 12000
+    quick_cases = 420
+    thorough_cases = 3000
     rule = ("one case = one history over a profile with six relations (item, note, parse, result, run, edge), "
             "0-6 initially stored rows per used relation, plain or gzip; rows carry a unique first cell and "
             "typed values (int, str incl. @ newline backslash, date, None); ops append/extend/setitem/"
@@ -598,7 +598,7 @@ class C10(Check):
             "reopen/process(scripted processor, buffer 0..beyond the produced rows, gzip or not); after every "
             "step len, iteration, every index -n-1..n, 4+ slices, a column selection, in_transaction, the "
             "relation file and a fresh TestSuite are observed.  Bounded-exhaustive: all histories of <=2 "
-            "(quick) / <=3 (thorough) ops from a 24-op menu on 3 stored rows, plain and gzip alternating, "
+            "(quick) / all <=2 plus 3 400 sampled of length 3 (thorough) ops from a 24-op menu on 3 stored rows, plain and gzip alternating, "
             "followed by commit, commit, reopen.  A case is non-trivial if it has a step; distinct by JSON text.")
     assumptions = [
         "a relation file is modelled as the list of its rows; gzip is the identity on content (flag only)",
@@ -626,7 +626,7 @@ class C10(Check):
         if tier == "quick":
             yield from exhaustive_cases(rng, 2)
         else:
-            yield from exhaustive_cases(rng, 3)
+            yield from exhaustive_cases(rng, 3, sample=4000)
         n_proc = n // 4
         n_long = n // 5
         for _ in range(n_proc):
@@ -825,6 +825,17 @@ class C10(Check):
             out.append({"e": o["e"], "intx": o["intx"], "T": T,
                         "Q": [exc(q, lambda rs: [row(r) for r in rs]) for q in o["Q"]]})
         return out
+
+    def model_compare(self, case, expected, answer):
+        # after an aborted process the rows handed to the model's later process steps (computed on the
+        # plain lists) no longer describe the real item table: compare up to and including that step
+        if isinstance(answer, list):
+            for si, st in enumerate(case["steps"]):
+                if st["k"] == "process" and si + 1 < len(expected) and expected[si + 1]["e"] is not None:
+                    expected = expected[:si + 2]
+                    answer = answer[:si + 2]
+                    break
+        return super().model_compare(case, expected, answer)
 
     def _ids_for(self, case, sim):
         ids = {}
